@@ -1311,6 +1311,7 @@ impl<'a> Exec<'a> {
 						later = Some(j);
 					}
 				}
+				self.abandon_db();
 				self.violation(
 					crash_prop,
 					"not-a-prefix",
@@ -1619,6 +1620,9 @@ impl<'a> Exec<'a> {
 			let kind = self.col_kinds[*c as usize];
 			match op {
 				TxOp::InsertTree(k, _) | TxOp::RefTree(k) | TxOp::DerefTree(k) => {
+					if *k >= self.col_cfgs[*c as usize].keys.len() {
+						continue
+					}
 					if kind.is_tree() && crate::treeops::applicable(self, *c, op, &touched[*c as usize]) {
 						touched[*c as usize].insert(*k);
 						// trees referenced by Existing children must not be dereferenced later in the same tx
